@@ -318,6 +318,54 @@ func (e *Exec) concretize(st *State, t *Term) (*Term, bool) {
 	return nil, false
 }
 
+// enumerate lists the possible values of t under the path condition when there are at most max of them.
+func (e *Exec) enumerate(st *State, t *Term, max int) ([]*big.Int, bool) {
+	if t.Op == OpConst {
+		return []*big.Int{t.Val}, true
+	}
+	probe := e.TS.Var("enum!probe", SInt)
+	base := e.relevant(append(append([]*Term{}, st.PC...), e.TS.Eq(probe, t)))
+	var vals []*big.Int
+	for len(vals) <= max {
+		q := append([]*Term{}, base...)
+		for _, v := range vals {
+			q = append(q, e.TS.Ne(t, e.TS.Int(v)))
+		}
+		e.BranchQueries++
+		r, m, _, _ := e.Solver.Check(q, e.ConcretizeTimeoutMs, true)
+		if r == Unsat {
+			return vals, true
+		}
+		if r != Sat || m == nil {
+			return vals, false
+		}
+		v, ok := m.Ints["enum!probe"]
+		if !ok {
+			return vals, false
+		}
+		vals = append(vals, v)
+	}
+	return vals, false
+}
+
+// forkOnValues splits the state on the possible values of a symbolic count (used by shift intrinsics).
+func (e *Exec) forkOnValues(st *State, t *Term, max int, what string) ([]*State, []*big.Int) {
+	vals, complete := e.enumerate(st, t, max)
+	if !complete || len(vals) == 0 {
+		unsupported("symbolic %s", what)
+	}
+	var sts []*State
+	for i, v := range vals {
+		s2 := st
+		if i < len(vals)-1 {
+			s2 = st.Fork()
+		}
+		s2.PC = append(s2.PC, e.TS.Eq(t, e.TS.Int(v)))
+		sts = append(sts, s2)
+	}
+	return sts, vals
+}
+
 func (e *Exec) concreteIntSt(st *State, v Value, what string) int {
 	if t, ok := v.(*Term); ok && t.Op != OpConst && t.Sort == SInt && st != nil && !e.inInit {
 		if c, ok := e.concretize(st, t); ok {
